@@ -747,6 +747,10 @@ pub enum Op {
     /// Like `MapPre`, but the client's pre-spawned entity has exactly the same id (index and
     /// generation) as the server entity, if the client's allocator can still reach it.
     MapPreSameId(u8, u8),
+    /// Client `c` allocates local entities until the next id its allocator hands out is the id
+    /// (index and generation) of the server's entity in slot `s`: the next replica spawned on
+    /// `c` then has the same bits as that unrelated server entity.
+    AlignNextId(u8, u8),
     /// Like `MapPre`, but the server entity has A and B and the client's pre-spawned entity
     /// already carries a predicted copy of B.
     MapPrePredicted(u8, u8),
@@ -810,6 +814,7 @@ impl Op {
             Op::MapPrePredicted(c, s) => format!("prespawn with predicted B on c{c} + map e{}{{A,B}}", s + 1),
             Op::MapPreSameId(c, s) => format!("prespawn on c{c} with the server entity's own id + map e{}", s + 1),
             Op::DespawnPre(c, s) => format!("c{c} despawns its prespawned entity for e{}", s + 1),
+            Op::AlignNextId(c, s) => format!("c{c} allocates local entities up to the id of the server's e{}", s + 1),
         }
     }
 }
@@ -1190,6 +1195,7 @@ impl Sim {
                     && !self.prespawned.contains_key(&(c as usize, s))
                     && self.is_authorized(c as usize)
             }
+            Op::AlignNextId(_, s) => self.alive(s).is_some(),
             Op::MapLate(c, s) => {
                 self.cfg.vis != Vis::All
                     && self.marked(s)
@@ -1499,6 +1505,22 @@ impl Sim {
                     .get_mut::<ClientEntityMap>(conn)
                     .expect("authorized client has an entity map")
                     .insert(id, pre);
+            }
+            Op::AlignNextId(c, s) => {
+                let id = self.alive(s).unwrap();
+                let w = self.clients[c as usize].app.world_mut();
+                let mut guard = 0;
+                loop {
+                    let e = w.spawn_empty().id();
+                    guard += 1;
+                    if e.generation() == id.generation() && e.index() + 1 == id.index() {
+                        break;
+                    }
+                    assert!(
+                        e.index() < id.index() && guard < 256,
+                        "c{c}'s allocator cannot reach {id} any more (it handed out {e})"
+                    );
+                }
             }
             Op::MapPrePredicted(c, s) => {
                 let etag = s + 1;
